@@ -528,16 +528,19 @@ class WsgiApplication(HttpBase):
             return self.handle_error(p_ctx, others, p_ctx.out_error,
                                                                  start_response)
 
-        assert p_ctx.out_object is not None
-        g = next(iter(p_ctx.out_object), None)
-        is_generator = len(p_ctx.out_object) == 1 and isgenerator(g)
-
         # if the out_object is a generator function, this hack makes the user
         # code run until first yield, which lets it set response headers and
         # whatnot before calling start_response. It's important to run this
         # here before serialization as the user function can also set output
         # protocol. Is there a better way?
         try:
+            # (a function declared with more than one return value that
+            # returned something else ends up here with no out_object or one
+            # that's not a sequence. that's a failure like any other.)
+            assert p_ctx.out_object is not None
+            g = next(iter(p_ctx.out_object), None)
+            is_generator = len(p_ctx.out_object) == 1 and isgenerator(g)
+
             if is_generator:
                 try:
                     first_obj = next(g)
